@@ -46,32 +46,53 @@ fn workload(seed: u64, batch: u64) -> Workload {
     let threads = *rng.pick(&[2usize, 2, 3, 4, 8, 16]);
     let per = if threads >= 8 { 2 } else { rng.urange(2, 5) };
     let calls = gen_calls(&mut rng, &sw, threads * per);
-    // single-threaded reference results, computed before any thread exists
-    let expected: Vec<String> = calls.iter().map(perform).collect();
-    let mut per_thread = vec![Vec::new(); threads];
+    let mut per_thread: Vec<Vec<(usize, Call)>> = vec![Vec::new(); threads];
+    let mut all: Vec<Call> = Vec::new();
     for (i, c) in calls.into_iter().enumerate() {
-        // sometimes the same call on several threads at once
-        per_thread[i % threads].push((i, c));
+        per_thread[i % threads].push((i, c.clone()));
+        all.push(c);
     }
-    // the same call on every thread at once (identical headers, identical
+    let mut extra: Vec<Call> = Vec::new();
+    // the same calls on every thread at once (identical headers, identical
     // inputs): the case in which a shared scratch value is most likely to
-    // look right by accident and go wrong under an interleaving
-    if rng.chance(2, 3) {
-        let pick = per_thread
-            .iter()
-            .flatten()
-            .find(|(_, c)| matches!(c, Call::EncodeMsg(_) | Call::Decode { .. }))
-            .cloned()
-            .unwrap_or_else(|| per_thread[0][0].clone());
-        for t in 0..threads {
-            per_thread[t].push(pick.clone());
+    // look right by accident and go wrong under an interleaving. Always one
+    // control-message encode and one decode of its octets.
+    {
+        let m = rl2tp_dst::gen::gen_control(&mut rng, &sw, 300);
+        let bytes = rl2tp_dst::model::spec_encode(&m);
+        let shared = [
+            Call::EncodeMsg(m),
+            Call::Decode {
+                bytes,
+                opts: Some(rng.below(8) as u8),
+            },
+        ];
+        for c in shared {
+            let idx = expected_len(&per_thread);
+            for t in 0..threads {
+                per_thread[t].push((idx, c.clone()));
+            }
+            extra.push(c);
         }
     }
+    all.extend(extra);
+    // single-threaded reference results, computed before any thread exists
+    let expected: Vec<String> = all.iter().map(perform).collect();
     Workload {
         threads,
         per_thread,
         expected,
     }
+}
+
+/// Next free global call index.
+fn expected_len(per_thread: &[Vec<(usize, Call)>]) -> usize {
+    per_thread
+        .iter()
+        .flatten()
+        .map(|(i, _)| *i + 1)
+        .max()
+        .unwrap_or(0)
 }
 
 fn scenario(w: &Arc<Workload>) {
